@@ -1,5 +1,7 @@
 package gojq
 
+import "strings"
+
 // C09 — operator precedence/associativity against a precedence-climbing reference,
 // adjacent-token spacing in the printer, whitespace/comment invariance of the lexer.
 
@@ -126,9 +128,17 @@ func H_C09_forms() {
 func H_C09_ws() {
 	n := vparam("n", 3)
 	b := nondetString(n)
-	seps := []string{" ", "\t", "\n", "\r\n", "#c\n", "  ", "# x \\\n y\n", "#\r"}
+	seps := []string{" ", "\t", "\n", "\r\n", "#c\n", "  ", "# x \\\n y\n", "#\r", "#?\n", "#?#\n", "#\\?\n"}
 	sep := seps[nondetChoice(len(seps))]
 	vlabel("sep", sep)
+	if strings.Contains(sep, "?") {
+		// a comment with an arbitrary byte in it (anything but a line terminator)
+		c := nondetByte()
+		vassume(c != '\n')
+		vassume(c != '\r')
+		vassume(c != '\\')
+		sep = strings.Replace(sep, "?", string([]byte{c}), 1)
+	}
 	l1, l2 := newLexer(b), newLexer(sep+b)
 	var v1, v2 yySymType
 	for k := 0; k <= n+1; k++ {
